@@ -1,9 +1,9 @@
 #!/bin/bash
 # tools/intake.sh <srcroot> <prop> [x ...] — confirm seeds delivered by a sub-agent and run the property's quick check against them
 ROOT="$1"; P="$2"; shift 2
-XS=("$@"); [ ${#XS[@]} -eq 0 ] && XS=(c d)
+XS=("$@"); [ ${#XS[@]} -eq 0 ] && XS=(c d e f)
 for x in "${XS[@]}"; do
   [ -d "$ROOT/$P/$x" ] || { echo "$P$x: not delivered"; continue; }
   R=$(/verif/tools/confirm_seed.sh "$ROOT/$P/$x" "$P$x" 2>&1 | tail -1); echo "$R"
-  case "$R" in *CONFIRMED*) timeout 1200 /verif/tools/runseed.sh "$P$x" | tee -a /verif/seeded/RESULTS-round2.txt;; esac
+  case "$R" in *CONFIRMED*) timeout 1200 /verif/tools/runseed.sh "$P$x" | tee -a /verif/seeded/RESULTS-log.txt;; esac
 done
